@@ -103,6 +103,21 @@ func parent() int {
 	wg.Wait()
 	for i, e := range errs {
 		if e != nil {
+			// a worker that found one execution spinning (CPU-bound, never blocking) reports it and exits 3
+			for sh := 0; sh < shards; sh++ {
+				if b, err := os.ReadFile(filepath.Join(tmp, fmt.Sprintf("shard-%d.json.hang", sh))); err == nil {
+					if id == "C20" {
+						os.MkdirAll(replayDir(), 0o755)
+						path := filepath.Join(replayDir(), "C20-hang.json")
+						jb, _ := json.MarshalIndent(map[string]any{"property": "C20", "signature": "C20/hang/cpu-bound", "message": "an execution did not finish in real time (the scan spins without blocking)", "execution": string(b)}, "", " ")
+						os.WriteFile(path, jb, 0o644)
+						fmt.Printf("VIOLATION property=C20 replay=%s\n  signature: C20/hang/cpu-bound\n  execution %s did not finish within the real-time stall limit\n", path, string(b))
+						return 1
+					}
+					fmt.Fprintf(os.Stderr, "HARNESS-ERROR: execution %s did not finish within the real-time stall limit (the code under test spins); this property's check cannot proceed\n", string(b))
+					return 2
+				}
+			}
 			fmt.Fprintf(os.Stderr, "HARNESS-ERROR worker %d: %v\n%s\n", i, e, tail(string(outs[i]), 4000))
 			return 2
 		}
@@ -312,6 +327,25 @@ func TestWorker(t *testing.T) {
 		t.Fatalf("unknown property %q", id)
 	}
 	c := h.NewCollector(shard)
+	// watchdog (real time, outside any bubble): one execution normally takes well under a second; if a
+	// single execution is still in flight after VERIF_STALL_S (default 300) seconds the code under test
+	// is spinning without blocking, which virtual time cannot detect. The stuck case is written out and
+	// the worker exits with status 3.
+	stall := 300
+	if v, err := strconv.Atoi(os.Getenv("VERIF_STALL_S")); err == nil && v > 0 {
+		stall = v
+	}
+	go func() {
+		for {
+			time.Sleep(5 * time.Second)
+			since := h.InFlightSince.Load()
+			if since != 0 && time.Now().UnixNano()-since > int64(stall)*int64(time.Second) {
+				desc, _ := h.InFlightDesc.Load().(string)
+				os.WriteFile(os.Getenv("VERIF_OUT")+".hang", []byte(desc), 0o644)
+				os.Exit(3)
+			}
+		}
+	}()
 	if d, _ := strconv.Atoi(os.Getenv("VERIF_DEADLINE_S")); d > 0 {
 		c.Deadline = time.Now().Add(time.Duration(d) * time.Second)
 	}
